@@ -112,6 +112,10 @@ func runChildProc(dir, opsFile string, from, to int, kp string, kat, kk int, tra
 	for sc.Scan() {
 		lines = append(lines, sc.Text())
 	}
+	// an engine panic / fatal error ends the child: say so instead of leaving the remaining lines blank
+	if es := errb.String(); strings.Contains(es, "panic:") || strings.Contains(es, "fatal error:") {
+		lines = append(lines, "d engine-panic")
+	}
 	if os.Getenv("VERIF_DISK_STDERR") != "" && errb.Len() > 0 {
 		fmt.Fprintln(os.Stderr, errb.String())
 	}
@@ -127,6 +131,7 @@ func main() {
 	}
 	if !own {
 		augmentCfg()
+		capMismatches()
 		// hlib.Main registers the common flags and parses (ours are registered already)
 		hlib.Main("disk", &diskEngine{kills: map[string]int{}, shapes: map[string]int{}})
 		return
@@ -229,6 +234,29 @@ func augmentCfg() {
 	}
 }
 
+// capMismatches lowers hlib's -max-mismatches for this engine: every recorded mismatch is
+// delta-debugged with up to 400 re-executions, and one execution here means two child processes
+// and a database lifetime.  Five minimised examples of each kind are plenty.
+func capMismatches() {
+	for i := 1; i+1 < len(os.Args); i++ {
+		if os.Args[i] == "-max-mismatches" {
+			if n, err := strconv.Atoi(os.Args[i+1]); err == nil && n > 5 {
+				os.Args[i+1] = "5"
+			}
+		}
+	}
+}
+
+func isSubseq(a, b []string) bool {
+	j := 0
+	for _, x := range b {
+		if j < len(a) && a[j] == x {
+			j++
+		}
+	}
+	return j == len(a)
+}
+
 // expandOps fills in the codec sizes of shorthand entries (k<id>=<len>[e] | k<id>=del).
 func expandOps(ops []string) []string {
 	vt := 0
@@ -268,6 +296,8 @@ func expandOps(ops []string) []string {
 }
 
 type diskEngine struct {
+	curFull     []string      // the case being executed / minimised
+	shrinkSpent time.Duration // time spent executing shrink candidates (sub-sequences of curFull)
 	prop   string
 	kills  map[string]int
 	shapes map[string]int
@@ -389,9 +419,12 @@ func (e *diskEngine) Gen(r *hlib.Rand, tier string) []string {
 			e.shapes["one-commit-reopen"]++
 			return append(append([]string{propLine, open}, txns[:1]...), "close", "reopen", probeLine(), "close", "reopen")
 		}
-		open, txns := genWorkload(r, sync, 8+r.Intn(16), r.Chance(8))
+		open, txns := genWorkload(r, sync, 9+r.Intn(12), r.Chance(8))
 		ops := []string{propLine, open}
-		cycles := 1 + r.Intn(3)
+		// at least two close/reopen rounds with writes (rotations, flushes) in between; before a
+		// close, often explicit compaction steps (L0 -> ingest buffer, ingest drain/merge: the drain
+		// allocates a table id after the last memtable rotation); every reopen reads everything back
+		cycles := 2 + r.Intn(2)
 		per := len(txns)/cycles + 1
 		for i := 0; i < len(txns); i += per {
 			j := i + per
@@ -399,6 +432,13 @@ func (e *diskEngine) Gen(r *hlib.Rand, tier string) []string {
 				j = len(txns)
 			}
 			ops = append(ops, txns[i:j]...)
+			if r.Chance(65) {
+				ops = append(ops, "maint l0move")
+				if r.Chance(25) {
+					ops = append(ops, "maint keep")
+				}
+				ops = append(ops, "maint drain")
+			}
 			ops = append(ops, "close", "reopen")
 		}
 		ops = append(ops, probeLine(), "close", "reopen")
@@ -410,6 +450,12 @@ func (e *diskEngine) Gen(r *hlib.Rand, tier string) []string {
 	sync := e.prop == "C09" || r.Bool()
 	bigBuf := r.Chance(10)
 	open, txns := genWorkload(r, sync, 4+r.Intn(10), bigBuf)
+	if !bigBuf && len(txns) > 3 && r.Chance(40) {
+		// compaction steps in the middle of the workload (tables move to the ingest buffer / are
+		// rewritten before the crash); they are workload lines like the transactions
+		at := len(txns) - 1 - r.Intn(2) // late: tables have usually been flushed by then
+		txns = append(append(append([]string{}, txns[:at]...), "maint l0move", "maint drain"), txns[at:]...)
+	}
 	learn := append([]string{propLine, open}, txns...)
 	learn = append(learn, "close")
 	tr := e.Exec(learn)
@@ -700,6 +746,23 @@ func (e *diskEngine) Exec(ops []string) []string {
 	if e.prop == "" {
 		e.prop = *prop
 	}
+	// Budget for delta debugging (only ever spent on a tree that already shows a mismatch): once it
+	// is used up, shrink candidates are not executed any more and the remaining mismatches are
+	// recorded unminimised-as-garbage; the first ones are minimised properly.
+	shrinking := len(e.curFull) > 0 && len(ops) < len(e.curFull) && isSubseq(ops, e.curFull)
+	if !shrinking {
+		e.curFull = append([]string(nil), ops...)
+	} else {
+		budget := 240 * time.Second
+		if t := flag.Lookup("tier"); t != nil && t.Value.String() == "thorough" {
+			budget = 1200 * time.Second
+		}
+		if e.shrinkSpent > budget {
+			panic("shrink budget exhausted (this candidate was not executed)")
+		}
+		t0 := time.Now()
+		defer func() { e.shrinkSpent += time.Since(t0) }()
+	}
 	// tmpfs when available: fsync cost is irrelevant for *process* crashes (the page cache survives)
 	base := ""
 	if st, err := os.Stat("/dev/shm"); err == nil && st.IsDir() {
@@ -771,6 +834,8 @@ func (e *diskEngine) Exec(ops []string) []string {
 	dead := false
 	collect := func(lines []string, from, to int) {
 		res := map[int]string{}
+		notes := map[int]string{}
+		diedOf := ""
 		ev := map[string][]string{}
 		for _, l := range lines {
 			f := strings.SplitN(l, " ", 3)
@@ -810,6 +875,10 @@ func (e *diskEngine) Exec(ops []string) []string {
 					killed = "none"
 				}
 				res[n] = r
+			case "d":
+				diedOf = f[1]
+			case "m":
+				e.kills["maint-"+strings.ReplaceAll(f[2], " ", "-")]++
 			case "b":
 				started = append(started, n)
 			case "e":
@@ -820,13 +889,21 @@ func (e *diskEngine) Exec(ops []string) []string {
 				killed = strings.ReplaceAll(f[2], " ", ".")
 				dead = true
 			case "x":
-				res[from] = "harness:" + strings.Join(f[1:], "_")
+				if len(f) == 3 && strings.HasPrefix(f[2], "!") {
+					notes[n] = f[2] // e.g. !flush-stuck: appended to the line's own output
+				} else {
+					res[from] = "harness:" + strings.Join(f[1:], "_")
+				}
 			}
 		}
 		for i := from; i < to && i < len(ops); i++ {
 			r, ok := res[i]
 			if !ok {
 				r = "-"
+				if diedOf != "" {
+					r = "died:" + diedOf // the first line the dead child never answered
+					diedOf = ""
+				}
 			}
 			tr := func(p string) string { return strings.Join(ev[fmt.Sprintf("%d/%s", i, p)], ",") }
 			kind := specs[i].Kind
@@ -838,6 +915,9 @@ func (e *diskEngine) Exec(ops []string) []string {
 				r += " c=[" + tr("C") + "] f=[" + tr("F") + "]"
 			case "close":
 				r += " x=[" + tr("X") + "]"
+			}
+			if nt := notes[i]; nt != "" {
+				r += " " + nt
 			}
 			out[i] = r
 		}
